@@ -14,7 +14,7 @@ ID = "C20"
 META = {
     "technique": "runtime monitoring: the real DataClient driven against a fake paged transport that logs every request and evaluates the filters it receives; yielded ids, request log and parsed datetimes checked against the server-side truth and an independent time-zone database",
     "design_ref": "DESIGN.md section 6 C20",
-    "level_text": "exploration over enumerated server paging behaviours (0..n documents x page-size caps x empty pages in the middle / at the end x extra link keys x time-series mode) and query-argument combinations; exactly-once/in-order delivery, next-link following, first-request parameters, filter semantics and time conversion judged on every scenario; 1e5 (quick) http_date/parse_http_date round trips over 12 zones incl. DST gaps and folds; pytz / zoneinfo (fold) / fixed-offset / UTC datetimes with microseconds; chains of over 1000 pages; half of the calls leave options at their documented defaults unmentioned; stand-in transport with params=/Session()/raise_for_status(); filters in python-like and MongoDB-JSON syntax carrying format / template characters",
+    "level_text": "exploration over enumerated server paging behaviours (0..n documents x page-size caps x empty pages in the middle / at the end x extra link keys x time-series mode) and query-argument combinations; exactly-once/in-order delivery, next-link following, first-request parameters, filter semantics and time conversion judged on every scenario; 1e5 (quick) http_date/parse_http_date round trips over 12 zones incl. DST gaps and folds; pytz / zoneinfo (fold) / fixed-offset / UTC datetimes with microseconds; chains of over 1000 pages; half of the calls leave options at their documented defaults unmentioned; stand-in transport with params=/Session()/raise_for_status(); filters in python-like and MongoDB-JSON syntax carrying format / template characters; site names as str-Enum members and labelled str subclasses; windows also asked for as a count; count_sessions site check",
     "level_note": "the fake transport replaces data_client.requests; an audit hook proves no socket was opened (otherwise inconclusive); no transport errors are injected because the statement defines no behaviour for them; zone offsets are checked against the stdlib zoneinfo database, independent of pytz",
 }
 LEVEL = "exploration"
